@@ -109,7 +109,7 @@ def run(ck):
     l2 = gen_corpus("L2", shards=16)
     n2 = 12000 if quick else len(l2)
     l2s = ck.rng.sample(l2, n2) if n2 < len(l2) else l2
-    terms = l1 + lq + l2s
+    terms = l1 + lq + l2s + gen_corpus("ARREQ")     # + equalities of array literals over finite index sorts
     evs, skipped = simplify_events(ck, terms, env)
     # second pass in an environment whose CONSTANTS were all created before any symbol: node ids (which the
     # simplifier sorts commutative arguments by) then order constants before symbols - the opposite of pass one
